@@ -11,7 +11,7 @@ META = {
         "thorough": {"items_per_block": "0-4", "frames": "1-6, 8, 10 (C05: every n from 1 to 10 for one track, 6 for two, 3 for three)", "labels": "0,1,31,127,254,255 (256-byte fields), every length 0..30 (32-byte fields)",
                      "data2d": "up to 3x2 / 2x3 cells, <=3 points", "cameras": "0-3", "events": "0-3 events, 0-3 values"},
     },
-    "outside_bounds": ["larger shapes", "+-inf in the gap-deciding component (the library treats it as a gap: outside 'valid')",
+    "outside_bounds": ["larger shapes", "value round trip of a frame whose gap-deciding component is +-inf (the library stores it as a gap; the run table, data section and decoder are checked to agree on that for n<=5)",
                        "BTS camera records with fewer than 70 coefficients", "Data2D cells with zero points (decode to None)",
                        "byFrame formats (not implemented by the library)"],
     "assumptions": ["symnp model of numpy 1.26.4 (validated per run by witness replay on the real build)",
